@@ -31,11 +31,15 @@ ArchiveCase(c) ==
      mkinds |-> <<"flip0", "flip7", "set00", "setff">>,
      perbyte |-> IF Thorough THEN 2 ELSE 1,   \* how many of the four kinds per offset (rotating with offset + seed)
      stride |-> 1,
-     zero4 |-> TRUE, swap |-> TRUE, big |-> 0, sweep |-> "all", prefix |-> 0]
+     zero4 |-> TRUE, swap |-> TRUE, big |-> 0, sweep |-> "all", prefix |-> 0, session |-> FALSE]
 
 \* archive placement: the same sweep over a signed V1 archive / a V4 archive that starts behind a 512- or 1024-byte prefix
 \* ("signed range / digests = the whole archive wherever it starts")
 Placed(c, at) == [ArchiveCase(c) EXCEPT !.prefix = at]
+\* the full alteration sweep over archives that went through an in-place session
+SessionCases ==
+    {[ArchiveCase([ver |-> 2, crc |-> FALSE, attrs |-> "full", enc |-> FALSE, comp |-> TRUE, signed |-> FALSE]) EXCEPT !.session = TRUE],
+     [ArchiveCase([ver |-> 4, crc |-> TRUE, attrs |-> "crc32", enc |-> FALSE, comp |-> FALSE, signed |-> FALSE]) EXCEPT !.session = TRUE]}
 PlacedCases ==
     {Placed([ver |-> 1, crc |-> FALSE, attrs |-> "none", enc |-> FALSE, comp |-> TRUE, signed |-> TRUE], at) : at \in {512, 1024}}
     \cup {Placed([ver |-> 4, crc |-> FALSE, attrs |-> "none", enc |-> FALSE, comp |-> FALSE, signed |-> FALSE], 512)}
@@ -45,12 +49,12 @@ PlacedCases ==
 BigSigned(k) ==
     [kind |-> "archive", ver |-> 1, crc |-> FALSE, attrs |-> "none", enc |-> FALSE, comp |-> TRUE, signed |-> TRUE,
      mkinds |-> <<"flip0", "flip7", "set00", "setff">>, perbyte |-> 4, stride |-> 1,
-     zero4 |-> TRUE, swap |-> FALSE, big |-> k, sweep |-> "around_sig", prefix |-> 0]
+     zero4 |-> TRUE, swap |-> FALSE, big |-> k, sweep |-> "around_sig", prefix |-> 0, session |-> FALSE]
 BigCases == {BigSigned(k) : k \in {1, 36, 71, 300}}
 
 \* intact => verifies, for tables around / above the 0x4000-byte raw chunk (block table = 16 bytes per file)
 IntactBase == [kind |-> "intact_only", ver |-> 4, attrs |-> "none", crc |-> FALSE, enc |-> FALSE, comp |-> FALSE,
-               ctables |-> FALSE, lens |-> FALSE, prefix |-> 0, nfiles |-> 1]
+               ctables |-> FALSE, lens |-> FALSE, prefix |-> 0, nfiles |-> 1, session |-> FALSE]
 IntactCases ==
     \* (1) tables around / above the 0x4000-byte raw chunk (block table = 16 bytes per file)
     {[IntactBase EXCEPT !.nfiles = n] : n \in {1022, 1023, 1024, 1025, 1100, 2049}}
@@ -66,6 +70,12 @@ IntactCases ==
     \*     every file reads back and passes SFileVerifyFile SECTOR_CRC / FILE_CRC / FILE_MD5
     \cup {[IntactBase EXCEPT !.ver = v, !.attrs = a, !.crc = cr, !.enc = ec, !.comp = ec, !.lens = TRUE, !.nfiles = 2]
             : v \in 1..4, a \in {"none", "crc32", "full"}, cr \in BOOLEAN, ec \in BOOLEAN}
+    \* (4) archives with attributes that went through an in-place MutableArchive session (add, replace, remove, rename;
+    \*     flushed and reopened): every detector passes for every file -- untouched, replaced, renamed and added ones
+    \cup {[IntactBase EXCEPT !.ver = v, !.attrs = a, !.crc = cr, !.lens = TRUE, !.nfiles = 2, !.session = TRUE]
+            : v \in 1..4, a \in {"crc32", "full"}, cr \in BOOLEAN}
+    \cup {[IntactBase EXCEPT !.ver = v, !.attrs = "full", !.crc = TRUE, !.enc = TRUE, !.comp = TRUE, !.lens = TRUE,
+                             !.nfiles = 2, !.session = TRUE] : v \in {1, 4}}
 
 \* signatures of many distinct messages verify (about 1 RSA value in 256 has a zero top byte and needs left padding:
 \* P(no such value among n messages) = (255/256)^n : n = 2000 -> 4.0e-4, n = 8000 -> 2.5e-14)
@@ -76,7 +86,7 @@ SigAlignCases == {[kind |-> "sigalign", unit |-> 65536, after |-> 128]}
 SigCases == {[kind |-> "sigbytes", len |-> l, allbits |-> Thorough, start |-> st]
                : l \in IF Thorough THEN {1, 64, 300, 1000} ELSE {64, 300}, st \in {0, 512}}
 
-Cases == SetToSeq({ArchiveCase(c) : c \in Chosen}) \o SetToSeq(BigCases) \o SetToSeq(PlacedCases) \o SetToSeq(SigCases)
+Cases == SetToSeq({ArchiveCase(c) : c \in Chosen}) \o SetToSeq(BigCases) \o SetToSeq(PlacedCases) \o SetToSeq(SessionCases) \o SetToSeq(SigCases)
          \o SetToSeq(IntactCases) \o SetToSeq(SigManyCases) \o SetToSeq(SigAlignCases)
 ASSUME ndJsonSerialize(IOEnv.CASES, Cases)
 ASSUME PrintT(<<"GENERATED", Len(Cases), "archives", Cardinality(Chosen)>>)
